@@ -167,3 +167,55 @@ func checkPageLean(repo string) string {
 	}
 	return "def checkPageTranslated : Bool := true\ndef checkPageError : String := \"\"\n" + head + "\n  " + strings.Join(guards, " &&\n  ") + "\n"
 }
+
+// pageDataCodecs: the codecs `pageData` switches on (numeric ids), and whether every other codec ends in an
+// error (a `default:` arm whose last statement returns a non-nil error).
+func pageDataCodecsLean(repo string) string {
+	fail := func(err error) string {
+		return fmt.Sprintf("def pageDataTranslated : Bool := false\ndef pageDataError : String := %q\ndef pageDataCodecs : List Int := []\ndef pageDataDefaultErrors : Bool := false\n", err.Error())
+	}
+	consts, err := schemaConsts(repo)
+	if err != nil {
+		return fail(err)
+	}
+	_, f, err := parseFile(filepath.Join(repo, "fields.go"))
+	if err != nil {
+		return fail(err)
+	}
+	fn := findFunc(f, "", "pageData")
+	if fn == nil {
+		return fail(fmt.Errorf("func pageData not found"))
+	}
+	var sw *ast.SwitchStmt
+	ast.Inspect(fn, func(n ast.Node) bool {
+		if s, ok := n.(*ast.SwitchStmt); ok && sw == nil && s.Tag != nil && strings.HasSuffix(sel(s.Tag), ".Codec") {
+			sw = s
+		}
+		return true
+	})
+	if sw == nil {
+		return fail(fmt.Errorf("no switch on the chunk's codec in pageData"))
+	}
+	var ids []string
+	defErr := false
+	for _, st := range sw.Body.List {
+		cc := st.(*ast.CaseClause)
+		if cc.List == nil {
+			if n := len(cc.Body); n > 0 {
+				if r, ok := cc.Body[n-1].(*ast.ReturnStmt); ok && len(r.Results) == 2 && sel(r.Results[1]) != "nil" {
+					defErr = true
+				}
+			}
+			continue
+		}
+		for _, e := range cc.List {
+			v, ok := consts[strings.TrimPrefix(sel(e), "sch.")]
+			if !ok {
+				return fail(fmt.Errorf("case %s is not a codec constant", sel(e)))
+			}
+			ids = append(ids, v)
+		}
+	}
+	return fmt.Sprintf("def pageDataTranslated : Bool := true\ndef pageDataError : String := \"\"\n/-- the codec ids `pageData` handles; any other id: %s -/\ndef pageDataCodecs : List Int := [%s]\ndef pageDataDefaultErrors : Bool := %v\n",
+		map[bool]string{true: "error", false: "NOT an error"}[defErr], strings.Join(ids, ", "), defErr)
+}
